@@ -548,7 +548,9 @@ class QR<value_type, typename std::enable_if<math::is_static_matrix<value_type>:
 
             r = A;
 
-            copy_to_scalar_buf(rows, cols, row_stride, col_stride, A);
+            // With computed == true the scalar buffer already holds the
+            // factorization; copying A again would destroy it.
+            if (!computed) copy_to_scalar_buf(rows, cols, row_stride, col_stride, A);
             base.solve(m, n, 1, m, buf.data(),
                     reinterpret_cast<const scalar_type*>(f),
                     reinterpret_cast<scalar_type*>(x),
